@@ -59,3 +59,14 @@ Proof.
   intros WF Hnd Hd Hb Ha. exact (mono_reciprocal sc tm b WF Ha Hnd rho Hd Hb pA pB K t).
 Qed.
 Print Assumptions C09_model.
+
+(** (5) the role link assumed by [linked] holds for the model of the point-to-patch kernel:
+    its receiver mode is four times its source mode divided by the patch area *)
+From SV Require Import Model.PtSolution Proofs.ShareLink.
+Theorem C09_roles_linked {T} {O : Ops T} {RL : RingLaws T} {FL : FieldLaws T}
+    (thr : T) (pt : @vec T) (pts : list (@vec T)) :
+  tpi <> 0%T -> @four T O <> 0%T -> poly_area pts <> 0%T ->
+  (forall a c : T, a <> 0%T -> c <> 0%T -> (a * c)%T <> 0%T) ->
+  pt_solution thr true pt pts = ((four * pt_solution thr false pt pts) * (1 / poly_area pts))%T.
+Proof. exact (share_link_inv thr pt pts). Qed.
+Print Assumptions C09_roles_linked.
